@@ -109,3 +109,47 @@ def run_case(cid):
 
 def cases():
     return [(cid,) + run_case(cid) for cid in PROGRAMS]
+
+
+def edited_region_cases():
+    """The clauses PSyclone generates are the ones of the region as it is
+    when the code is written: a data region is created, then its body is
+    edited (a statement reading a further array and writing another is
+    added) - in the original tree and in a copy of the tree - and the
+    written directive must move the newly used arrays.
+    Yields (case id, ok, detail)."""
+    from psyclone.psyir.frontend.fortran import FortranReader
+    from psyclone.psyir.backend.fortran import FortranWriter
+    from psyclone.psyir.nodes import Routine, ACCDataDirective, Assignment
+    from psyclone.transformations import ACCDataTrans
+    src = ("subroutine s(a, b, c, d)\n  real, intent(inout) :: a(6), b(6), "
+           "c(6), d(6)\n  integer :: i\n  do i = 1, 6\n    a(i) = b(i)\n"
+           "  end do\n  do i = 1, 6\n    d(i) = c(i)\n  end do\n"
+           "end subroutine s\n")
+    for where in ("original", "copy", "copy-of-copy"):
+        psyir = FortranReader().psyir_from_source(src)
+        rt = psyir.walk(Routine)[0]
+        ACCDataTrans().apply(rt.children[0])
+        tree = psyir
+        for _ in range({"original": 0, "copy": 1, "copy-of-copy": 2}[where]):
+            tree = tree.copy()
+        rt2 = tree.walk(Routine)[0]
+        region = rt2.walk(ACCDataDirective)[0]
+        second = [n for n in rt2.children if n is not region][0]
+        region.dir_body.addchild(second.detach())
+        text = FortranWriter()(tree).lower()
+        line = [ln for ln in text.split("\n") if "!$acc data" in ln]
+        line = line[0] if line else ""
+        import re
+        moved = {}
+        for kind, names in re.findall(r"(copyin|copyout|copy)\(([^)]*)\)",
+                                      line):
+            for nm in names.split(","):
+                moved[nm.strip()] = kind
+        ok = moved.get("c") in ("copyin", "copy") and \
+            moved.get("d") in ("copyout", "copy") and \
+            moved.get("b") in ("copyin", "copy") and \
+            moved.get("a") in ("copyout", "copy")
+        yield (where, ok, f"data region over 'a(i) = b(i)' created, then "
+               f"the loop 'd(i) = c(i)' moved into it in the {where} tree; "
+               f"written directive: '{line.strip()}'")
